@@ -1328,6 +1328,9 @@ class Exec:
         ctx = {'key': key, 'self_ty': self_ty, 'depth': depth, 'fid': fid}
         self.fn_stack.append(key)
         self.self_stack.append(self_ty)
+        if not consts and '{closure' in key and self.const_env:
+            # a closure body lives in the generic context of the function that defines it
+            consts = self.const_env[-1]
         self.const_env.append(consts or {})
         try:
             outs = self.run(ctx, mir, 0, st, frozenset())
